@@ -238,7 +238,7 @@ def misc_cell(cell, common):
             for pol in sched.order_policies(nmax) if nmax > 1 else [("id", 0)]:
                 res, log, fs = seam.run(lambda: qc.par_reduce(np.matmul, mats, num_threads=nt), pol)
                 facts = sched.analyse(log)
-                if facts or not np.allclose(res, ref, rtol=1e-12, atol=1e-12):
+                if facts or np.shape(res) != ref.shape or not np.allclose(res, ref, rtol=1e-12, atol=1e-12):
                     out.append(table.bad(core.problem("par_reduce(matmul, %d mats, nt=%d) order %s: %s" % (n, nt, pol, facts[:1] or "wrong product"), root="par_reduce", entry="par_reduce"), sub=(kind, n, nt)))
                     return out
         out.append(table.ok(key=(kind, n, nt), nontrivial=nmax > 1, outcome="par_reduce:tasks=%d" % nmax, sub=(kind, n, nt)))
@@ -264,7 +264,7 @@ def misc_cell(cell, common):
                     res, log, fs = seam.run(lambda: qu.kron(*ops, parallel=True), pol)
                     res = res.toarray() if sp.issparse(res) else np.asarray(res)
                     facts = sched.analyse(log)
-                    if facts or not np.allclose(res, ref, rtol=1e-12, atol=1e-12):
+                    if facts or res.shape != ref.shape or not np.allclose(res, ref, rtol=1e-12, atol=1e-12):
                         out.append(table.bad(core.problem("kron(parallel=True) of %d ops nt=%d sparse=%s order %s: %s" % (n, nt, sparse, pol, facts[:1] or "wrong product"), root="kron-parallel", entry="kron"), sub=(kind, n, nt, sparse)))
                         return out
             finally:
